@@ -1,6 +1,7 @@
 from vlib import Check
 
 TRUSTED = [
+    "tie (T), added: the statement lists of the functions this property's model was transcribed from are regenerated from /repo on every run (Gen/Stmts.lean) and pinned against the committed transcription source by the kernel-decided theorem source_as_modelled; the step from statements to model is by reading and is what the differential runs check",
     "Lean 4.33.0 kernel; axioms of every theorem audited",
     "hand-written model Model/Orch.lean (handler tables; one action = one acquisition of Scheme.lock; sessions = caller thread + callback thread), tied by the harness component orch: a real Scheme with a gated synchroniser and scripted "
     "backends is driven along every exit path (failed / late / passed first and second synchronisation, unusable share data, backend failure, success, caller giving up at each point), the table snapshot hook is compared with the model at every stable point",
@@ -13,7 +14,7 @@ ASSUME = [
 
 def main():
     c = Check("C12")
-    c.prove(gen=[])
+    c.prove(gen=["stmts"])
     c.correspond("orch")
     return c.finish(
         rule="histories of 3..7 calls on one real Scheme: KeyGen (1 in 4) and Sign on a pool of 3 topics, each driven along one of 5 (KeyGen) / 7 (Sign) exit paths chosen by the PRNG, with a second concurrent Sign on the same topic one time in three "
